@@ -112,6 +112,22 @@ def check_sample(spec, side, sampler, out, source):
         pred = lib(model.subsample_pattern, by, out[-1], on_error='violation',
                    sig='raises:model.subsample_pattern')
         pc = [int(x) - S.CID0 for x in pred.pattern_descriptors['_cid']]
+        if by == 'index' and S.group_values(spec, 'pat') == list(range(side['n_cond'])):
+            # a fixed model built on an RDMs object that an earlier subset left with other 'index'
+            # labels numbers its conditions by position (documented behaviour of ModelFixed since
+            # ever): its prediction is resampled with the positions the data sample reports
+            from rsatoolbox.model import ModelFixed
+            weird = RDMs(np.arange(1, ref.n_pairs(side['n_cond']) + 1, dtype=float)[None, :],
+                         pattern_descriptors={'_cid': list(side['pat_desc']['_cid']),
+                                              'index': [3 * j + 2 for j in range(side['n_cond'])]})
+            mp = lib(lambda: ModelFixed('m', weird).predict_rdm().subsample_pattern('index', out[-1]),
+                     on_error='violation', sig='raises:ModelFixed.predict_rdm.subsample_pattern')
+            mc = [int(x) - S.CID0 for x in mp.pattern_descriptors['_cid']]
+            if mc != cid:
+                _v('prediction of a ModelFixed built on an object with index labels %s, resampled with '
+                   'the returned pattern_idx: conditions %s, the sample holds %s' % (
+                       [3 * j + 2 for j in range(side['n_cond'])], mc, cid),
+                   'order:fixed-model-prediction:' + sampler)
         if pc != cid:
             _v('conditions of the sample %s differ in order from model.subsample_pattern(%r, '
                'pattern_idx) %s' % (cid, by, pc), 'order:prediction:' + sampler)
@@ -162,6 +178,10 @@ def call_sampler(spec, sampler, draws, fallback_seed=0):
         source.dissimilarities[...] = np.where(np.isnan(final), final, final + 1.0)
         source.get_matrices()
         source.get_vectors()
+        # (an earlier resample of the same object with the earlier values, too)
+        lib(source.subsample_pattern, 'index', list(source.pattern_descriptors['index'])[:2],
+            on_error='reject')
+        lib(source.subsample, 'index', list(source.rdm_descriptors['index'])[:1], on_error='reject')
         source.dissimilarities[...] = final
     kw = S.kwargs_for(spec, dims)
     with rng.Injected(draws, fallback_seed) as rec:
